@@ -113,7 +113,7 @@ def body(case, acc):
         if not ok:
             return Violation("C03:decodes-differently", "R decodes different statements (namespace case)", case)
         return None
-    if case["integration"] == "generic" or case["entry"] == "flat_to_file":
+    if case["integration"] == "generic" or case["entry"] in ("flat_to_file", "flat_to_file_default"):
         if case["integration"] == "generic":
             want = scen.expected_generic(case)
         else:
